@@ -467,9 +467,12 @@ pub fn compute_entity_manifest(
                     // using static analysis
                     entity_manifest_from_expr(&typechecked_expr).map(|val| val.global_trie)
                 }
-                PolicyCheck::Irrelevant(_, _) => {
-                    // this policy is irrelevant, so we need no data
-                    Ok(RootAccessTrie::new())
+                PolicyCheck::Irrelevant(_, typechecked_expr) => {
+                    // The policy is never satisfied in this environment, but it is
+                    // still evaluated: without the data it reads it can error (or,
+                    // when another policy loads part of the same record, even be
+                    // satisfied) on the slice although it is `false` on the full store.
+                    entity_manifest_from_expr(&typechecked_expr).map(|val| val.global_trie)
                 }
 
                 #[expect(
